@@ -122,7 +122,7 @@ def run(ctx):
     ctx.rule("R09.h", "watch delivery: reactive_ops._watch registers its callback with bind(<cb>, self._reactive, watch=True); inside the callback every path on which a function was given "
                       "hands the value to it (directly or through the async executor), and the callback reads no state of the shared .rx namespace object", floor=3)
     ctx.not_decided += ["that .rx.value equals the plain-Python result after arbitrary read/update histories (cache coherence) -- not statically decidable here and NOT claimed",
-                        "the .rx helper namespace (pipe, where, and_, ...) and rx.watch delivery"]
+                        "the .rx helper namespace (pipe, where, and_, ...); the values rx.watch delivers (only the callback structure is decided, R09.h)"]
     from checks.shared import comparator_model
     comparator_model(ctx, "R09.g")
     _watch_delivery(ctx)
